@@ -70,6 +70,65 @@ def compare_tables(rebound, gen):
     return bad
 
 
+def option_sweep(rebound, gen, rng):
+    """EVERY integrator x EVERY value of every option dict of the Python layer (taken from the imported rebound package,
+    so a new dict entry is swept automatically), plus the numeric options on a small grid, crossed with save point and
+    with the gravity / collision / boundary dicts.  Invalid combinations are rejected by the library itself; the
+    caller skips a recipe whose plain (never saved) run raises."""
+    import itertools, copy
+    from rebound import simulation as S
+    from rebound.integrators import whfast as W, saba as SA, eos as EO, trace as TR
+    out = []
+    def base(integ, label):
+        b = gen._base(rng, integ, "optsweep/" + label)
+        return b
+    def emit(integ, label, sets=(), **kw):
+        for k in (1, 3):
+            r = base(integ, "%s/k=%d" % (label, k))
+            r["set"] = list(r["set"]) + [list(x) for x in sets]
+            r["k"] = k
+            r.update(kw)
+            out.append(r)
+    for co, ke, cr, c2, sm in itertools.product(sorted(W.WHFAST_COORDINATES), sorted(W.WHFAST_KERNELS), (0, 3, 5, 7, 11, 17), (0, 1), (0, 1)):
+        for ku in ((0, 1) if sm == 0 else (0,)):
+            emit("whfast", "%s/%s/c%d/c2=%d/sm%d/ku%d" % (co, ke, cr, c2, sm, ku),
+                 [["ri_whfast.coordinates", co], ["ri_whfast.kernel", ke], ["ri_whfast.corrector", cr], ["ri_whfast.corrector2", c2],
+                  ["ri_whfast.safe_mode", sm], ["ri_whfast.keep_unsynchronized", ku]])
+    for ty, sm in itertools.product(sorted(SA.SABA_TYPES), (0, 1)):
+        for ku in ((0, 1) if sm == 0 else (0,)):
+            emit("saba", "%s/sm%d/ku%d" % (ty, sm, ku), [["ri_saba.type", ty], ["ri_saba.safe_mode", sm], ["ri_saba.keep_unsynchronized", ku]])
+    for p0, p1, n, sm in itertools.product(sorted(EO.EOS_TYPES), sorted(EO.EOS_TYPES), (1, 2, 3), (0, 1)):
+        emit("eos", "%s/%s/n%d/sm%d" % (p0, p1, n, sm), [["ri_eos.phi0", p0], ["ri_eos.phi1", p1], ["ri_eos.n", n], ["ri_eos.safe_mode", sm]])
+    for am, eps, mdt in itertools.product((0, 1, 2, 3), (1e-9, 1e-5, 0.0), (0.0, 1e-3)):
+        emit("ias15", "am%d/eps%g/mindt%g" % (am, eps, mdt), [["ri_ias15.adaptive_mode", am], ["ri_ias15.epsilon", eps], ["ri_ias15.min_dt", mdt]])
+    for L, sm, rc in itertools.product((None, "mercury", "C4", "C5", "infinity"), (0, 1), (2.0, 3.0, 5.0)):
+        emit("mercurius", "L=%s/sm%d/rc%g" % (L, sm, rc), [["ri_mercurius.safe_mode", sm], ["ri_mercurius.r_crit_hill", rc]], mercurius_L=L)
+    for pm, sp, rc, eta in itertools.product(sorted(TR.TRACE_PERI_MODES), (None, "default", "none"), (2.0, 4.0), (0.5, 1.0, 2.0)):
+        emit("trace", "%s/S_peri=%s/rc%g/eta%g" % (pm, sp, rc, eta),
+             [["ri_trace.peri_mode", pm], ["ri_trace.r_crit_hill", rc], ["ri_trace.peri_crit_eta", eta]], trace_S_peri=sp)
+    for order, sp, sv in itertools.product((2, 4, 6, 8, 10), (1e-16, 1e-14), (1e-16, 1e-13)):
+        emit("janus", "o%d/%g/%g" % (order, sp, sv), [["ri_janus.order", order], ["ri_janus.scale_pos", sp], ["ri_janus.scale_vel", sv]])
+    for ea, er, mind, maxd in itertools.product((1e-8, 1e-5, 0.3), (1e-8, 1e-5), (0.0, 1e-4), (0.0, 0.1)):
+        emit("bs", "%g/%g/%g/%g" % (ea, er, mind, maxd), [["ri_bs.eps_abs", ea], ["ri_bs.eps_rel", er], ["ri_bs.min_dt", mind], ["ri_bs.max_dt", maxd]])
+    for om, omz in itertools.product((0.5, 1.0), (None, 0.7, 3.6)):
+        emit("sei", "O%g/Oz%s" % (om, omz), [["ri_sei.OMEGA", om]] + ([["ri_sei.OMEGAZ", omz]] if omz is not None else []))
+    # every integrator x every module of the gravity / collision / boundary dicts
+    for integ in sorted(S.INTEGRATORS):
+        if integ == "whfast512":
+            continue
+        for g in sorted(S.GRAVITIES):
+            emit(integ, "gravity=%s" % g, gravity=g, box=[20.0, 1, 1, 1] if g == "tree" else None)
+        for c, res in itertools.product(sorted(S.COLLISIONS), ("merge", "hardsphere", "halt")):
+            if c == "none":
+                continue
+            emit(integ, "collision=%s/%s" % (c, res), collision=c, collision_resolve=res, box=[20.0, 1, 1, 1] if "tree" in c else None)
+        for b in sorted(S.BOUNDARIES):
+            if b == "none":
+                continue
+            emit(integ, "boundary=%s" % b, boundary=b, box=[20.0, 1, 1, 1])
+    return out
+
+
 def coq_exempt():
     """the hand-audited exempt list of coq/C05/Exempt.v (single source of truth for 'legitimately not persisted')"""
     s = vlib.strip_comments(open(os.path.join(vlib.COQ, "C05", "Exempt.v")).read())
@@ -108,6 +167,25 @@ def run(ctx):
     # ------------------------------------------------------------------ states
     nrec = ctx.scale(500, 3000)
     recipes = gen.recipes(rng, nrec, thorough=ctx.thorough)
+    n_base = len(recipes)
+    sweep = option_sweep(rebound, gen, rng)
+    # thorough: the whole sweep; quick: a deterministic 1-in-23 sample of it (keeps the code path alive)
+    full_sweep = sweep
+    sweep = sweep if ctx.thorough else sweep[ctx.seed % 23::23]
+    if not ctx.thorough:   # recipes that exposed defects in the thorough tier stay in the quick tier
+        sweep = sweep + [r for r in full_sweep if r["integrator"] == "bs" and r.get("collision_resolve") == "merge" and r not in sweep]
+    # fixed regression recipes (exact reproducers of findings made by the thorough tier)
+    P = [(1.0, 0.0, 0.0, 0.0, 0.0, 0.0, 0.0, 0.001),
+         (0.000606748223857011, 1.0, 0.0, 0.0, 0.28351668826104803, 1.0, 0.0, 0.005326149218456729),
+         (0.00058431982445882, 1.0269995810945907, 0.0001986509501140561, 0.0, -0.28351668826104803, 1.0, 0.0, 0.005326149218456729),
+         (0.0004965384415883654, -1.7, 0.1, 0.02, 0.0, -0.7669649888473704, 0.0, 0.002)]
+    for k in (4, 5, 6):
+        fx = gen._base(rng, "bs", "fixed/merge-in-step-5/k=%d" % k,
+                       particles=[dict(zip(("m", "x", "y", "z", "vx", "vy", "vz", "r"), q)) for q in P], dt=0.01)
+        fx["sim"]["rand_seed"] = 1877887275
+        fx.update(collision="direct", collision_resolve="merge", k=k)
+        sweep.append(fx)
+    ctx.extra["option_sweep_recipes"] = len(sweep)
     ncorr = ctx.scale(84, 400)
     b0 = gen.save_bytes(rebound, rebound.Simulation())
     cases = []
@@ -159,7 +237,7 @@ def run(ctx):
     t0 = time.time()
     fails = []
     skipped_recipes = []
-    for rec in recipes:
+    for rec in recipes + sweep:
         try:
             f = gen.continuation_oracle(rebound, rec, ks=(1, 7, 50))
         except Exception as e:
@@ -183,7 +261,7 @@ def run(ctx):
     ctx.evaluations += nmut
     for i in range(nmut):
         ctx.nontrivial.add(("mut", i))
-    ctx.log("oracles: %d recipes, %d members mutated, %.1fs" % (len(recipes), nmut, time.time() - t0))
+    ctx.log("oracles: %d recipes + %d option-sweep recipes, %d members mutated, %.1fs" % (len(recipes), len(sweep), nmut, time.time() - t0))
     exempt = coq_exempt()
     kept = []
     for f in mfails:
@@ -205,6 +283,14 @@ def run(ctx):
         if f.get("stage") == "continue" and f.get("detail") in ("restored", "copy") and \
                 (rec.get("gravity") == "tree" or rec.get("collision") in ("tree", "linetree")):
             f["key"] = "continue:tree-rebuilt"
+    for f in fails:
+        # residual of the BS restart defect fixed in 78f405f: if N changed in the LAST step before the save point (merge,
+        # open boundary), the original recreates its ODE at the next step and resets first_or_last_step to 1, whereas the
+        # restored simulation allocates a fresh ODE and keeps the persisted 0
+        rec = f.get("recipe") or {}
+        if f.get("key") == "continue:bs:first_or_last_step" and (rec.get("collision_resolve") == "merge" or rec.get("boundary") == "open"
+                                                                 or any(op.get("op") in ("add", "remove") for op in rec.get("after", []))):
+            f["key"] = "continue:bs:N_changed_before_save"
     seen = set()
     for f in fails + mfails:
         key = f.get("key") or ("%s:%s" % (f.get("stage", "lost"), ",".join(f.get("fields", [])[:3]) or f.get("member", "")))
@@ -214,7 +300,12 @@ def run(ctx):
         ctx.violation(key, f, True, "C05 oracle failure on the real library: %s" % key)
     ctx.extra["input_distribution"] = dist
     ctx.extra["recipes_skipped_because_plain_run_raises"] = skipped_recipes[:20]
-    ctx.obligation("oracle:continuation ran on >= 90% of the recipes", len(skipped_recipes) * 10 <= len(recipes), str(skipped_recipes[:5]))
+    base_ids = {r.get("id") for r in recipes}
+    nskip_base = len([1 for i, _ in skipped_recipes if i in base_ids])
+    ctx.extra["option_sweep_skipped_invalid_combinations"] = len(skipped_recipes) - nskip_base
+    ctx.obligation("oracle:continuation ran on >= 90% of the generator's recipes and on >= 40% of the option sweep "
+                   "(the rest are combinations the library itself rejects)",
+                   nskip_base * 10 <= n_base and (len(skipped_recipes) - nskip_base) * 10 <= 6 * max(1, len(sweep)), str(skipped_recipes[:5]))
     ctx.extra["mutation_oracle"] = {"members_checked": nmut, "skipped": skipped[:40]}
     ctx.rule = ("recipes from tools/c05_gen.py: deterministic sweep (every integrator x each option at a non-default value, gravity / "
                 "collision / boundary modules, variational particles, MEGNO, test particles, save points after 0..13 steps incl. "
